@@ -256,6 +256,10 @@ func init() {
 			hseed := r.Int63()
 			hr := rand.New(rand.NewSource(hseed))
 			cfg := gen.PickConfig(hr)
+			if i%4 == 3 {
+				cfg.SyncNone = true // no fsync at all: the error handling of the writer must not depend on it
+				rep.count("config:sync-none", 1)
+			}
 			ops, kinds := faultHistory(hr)
 			c08Case(rep, cfg, ops, hseed, kinds)
 			if i < 2 {
